@@ -588,3 +588,77 @@ def buffer_once(ctx, chk, rule: str = "BUFFER-ONCE") -> None:
                 else:
                     chk.refute(rule, key, f"{f.qualname} re-binds the sleep buffer (`{norm(node)[:60]}`): every command parked for a sleeping node at that moment is silently dropped and never written at the node's wake", f"{f.module.relpath}:{node.lineno}")
     chk.floor(rule, "bindings of the sleep buffer", n, 1)
+
+
+_MAPPING_PROTOCOL = (
+    "__setitem__", "__getitem__", "__delitem__", "__contains__", "__iter__", "__len__", "__missing__", "__eq__",
+    "get", "pop", "popitem", "setdefault", "update", "clear", "copy", "items", "values", "keys",
+)
+
+
+def _factory_of(value: ast.expr) -> ast.expr | None:
+    """`field(default_factory=F)` -> F; a plain initial value -> that value."""
+    if isinstance(value, ast.Call) and norm(value.func).split(".")[-1] == "field":
+        for kw in value.keywords:
+            if kw.arg == "default_factory":
+                return kw.value
+            if kw.arg == "default":
+                return kw.value
+        return None
+    return value
+
+
+def buffer_plain(ctx, chk, rule: str = "BUFFER-PLAIN") -> None:
+    """The sleep-buffer rules read `buf[key] = m`, `buf.pop(key)`, `buf.get(key)` ... with the meaning these have on
+    a plain dict.  A container class of the repository that overrides the mapping protocol changes that meaning
+    (e.g. `__setitem__` that updates the parked message in place instead of replacing it)."""
+    chk.rule(rule, "the containers of the sleep buffer are plain dicts: where a repository class is used as the container it overrides none of the mapping protocol (`__setitem__`, `__getitem__`, `get`, `pop`, `items` ...), so storing under a key replaces the parked message object and reading / removing return exactly what was stored")
+    n = 0
+    cands = []
+    for c in ctx.prog.all_classes():
+        for name, value in c.attr_order:
+            if name in BUFFERS:
+                cands.append((c, name, value))
+        for init in c.methods.get("__init__", []):
+            for node in ctx.own_nodes(init):
+                if isinstance(node, (ast.Assign, ast.AnnAssign)) and node.value is not None:
+                    for t in node.targets if isinstance(node, ast.Assign) else [node.target]:
+                        if isinstance(t, ast.Attribute) and t.attr in BUFFERS and norm(t.value) == "self":
+                            cands.append((c, t.attr, node.value))
+    for c, name, value in cands:
+        if True:
+            n += 1
+            chk.instance(rule)
+            key = f"{c.fq}::{name}"
+            where = f"{c.module.relpath}:{getattr(value, 'lineno', c.node.lineno)}"
+            fac = _factory_of(value) if value is not None else None
+            if fac is None:
+                raise AnalysisError(f"{key}: no initial value / default_factory found for the buffer container")
+            if isinstance(fac, ast.Lambda):
+                fac = fac.body
+            if isinstance(fac, ast.Dict) and not fac.keys:
+                chk.ok(rule, key, "an empty dict display", where)
+                continue
+            target = fac.func if isinstance(fac, ast.Call) and not fac.args and not fac.keywords else fac
+            d = ctx.prog.resolve_expr(c.module, target)
+            if d is not None and d.kind == "external" and d.obj == "builtins.dict":
+                chk.ok(rule, key, "the builtin dict", where)
+                continue
+            if d is not None and d.kind == "func":
+                rets = [x.value for x in ctx.own_nodes(d.obj) if isinstance(x, ast.Return) and x.value is not None]
+                if rets and all((isinstance(r, ast.Dict) and not r.keys) or (isinstance(r, ast.Call) and norm(r.func) == "dict" and not r.args and not r.keywords) for r in rets):
+                    chk.ok(rule, key, f"{d.obj.qualname} returns an empty plain dict", where)
+                    continue
+            if d is not None and d.kind == "class":
+                k: "ClassInfo" = d.obj
+                if not any(b in ("builtins.dict", "dict") or str(b).endswith(".dict") for b in k.external_bases()):
+                    raise AnalysisError(f"{key}: container class {k.fq} is not a dict subclass; the buffer rules do not model it")
+                over = sorted(mn for mn in k.mro_methods() if mn in _MAPPING_PROTOCOL)
+                if over:
+                    f0 = k.mro_methods()[over[0]][0]
+                    chk.refute(rule, key, f"the container class {k.name} overrides {', '.join(over)}: `buffer[key] = message` / `buffer.pop(key)` no longer have the plain-dict meaning the buffer is used with (e.g. a store may update the parked message object in place - a flush that already took it then writes the newer payload and the command is also kept / dropped wrongly)", f"{f0.module.relpath}:{f0.node.lineno}")
+                else:
+                    chk.ok(rule, key, f"{k.name} is a dict subclass that overrides none of the mapping protocol", where)
+                continue
+            raise AnalysisError(f"{key}: cannot decide what container `{norm(fac)[:60]}` creates")
+    chk.floor(rule, "buffer containers", n, 2)
